@@ -504,6 +504,26 @@ def stream_struct(tier, seed):
         except KeyError:
             break
         group("block", bb, bf, 1 + sum(nbreak_tx(t) for t in txs), tag="zero", maxbrk=4)
+    # the other degenerate extreme: every field at its maximum / every byte 0xff, and lists of identical elements
+    # (a de-duplication or "same as the previous one" shortcut)
+    fin = {"txid": b"\xff" * 32, "vout": 0xFFFFFFFF, "sig": b"\xff\xff", "seq": 0xFFFFFFFF}
+    fout = {"value": btc.U64MAX, "spk": b"\xff" * 3}
+    for outs in ([fout], [fout] * 3, [nout_] * 4, [nout_, fout, nout_, fout], [zout, fout, zout]):
+        b, f = btc.obj_bytes("txouts", list(outs))
+        group("txouts", b, f, len(outs), tag="ones", maxbrk=3)
+    for ins in ([fin], [fin] * 3, [nin_] * 4, [zin, fin, zin]):
+        b, f = btc.obj_bytes("txins", list(ins))
+        group("txins", b, f, len(ins), tag="ones", maxbrk=3)
+    for segwit, ins, outs, wits in ((False, [fin], [fout], []), (True, [fin, fin], [fout, fout], [[b"\xff"], [b"\xff"]]),
+                                    (True, [nin_] * 3, [nout_] * 3, [[b"\x01"], [b"\x01"], [b"\x01"]])):
+        tx = {"version": -1, "ins": list(ins), "outs": list(outs), "segwit": segwit, "wits": list(wits), "locktime": 0xFFFFFFFF}
+        tb, tf = btc.tx_bytes(tx)
+        group("transaction", tb, tf, nbreak_tx(tx), tag="ones", maxbrk=4)
+        blk = {"header": {"version": -1, "prev": b"\xff" * 32, "merkle": b"\xff" * 32, "time": 0xFFFFFFFF, "bits": 0xFFFFFFFF, "nonce": 0xFFFFFFFF}, "txs": [tx, dict(tx), dict(tx)]}
+        bb, bf = btc.block_bytes(blk)
+        group("block", bb, bf, 1 + 3 * nbreak_tx(tx), tag="ones", maxbrk=4)
+    group("header", b"\xff" * 80, [], 1, tag="ones")
+    group("outpoint", b"\xff" * 36, [], 0, tag="ones")
     # every byte value as the FIRST byte of a script, of a script sig, and of the first / last element of a witness
     # stack (a rule keyed on an opcode or tag byte: 0x50 annex, 0x6a OP_RETURN, 0x00 / 0x51 witness versions ...)
     for bv in range(256):
@@ -862,6 +882,20 @@ def stream_cache(tier, seed):
             else:
                 ops.append("f")
         emit(cap, ops)
+    # H4: content and key extremes: the same bytes stored under different keys (a cache must not de-duplicate by
+    # content), values of zero bytes (what the fresh buffer holds), values equal to what they overwrite, keys 0,
+    # 2^63 and 2^64 - 1
+    for cap in (4, 7, 10):
+        for content in (b"\x00", b"\xff", b"\x41"):
+            for sz in (1, 2, 3, cap // 2 + 1):
+                v = content * sz
+                keys = [0, 1, (1 << 63), (1 << 64) - 1, 5, 6, 7, 8, 9, 10]
+                ops = []
+                for k in keys:
+                    ops.append("i:%d:%s" % (k, hx(v)))
+                    ops.append("g:%d" % k)
+                ops += ["g:0", "g:%d" % ((1 << 64) - 1), "c:1", "l", "f", "i:0:%s" % hx(v), "g:0"]
+                emit(cap, ops)
     # H3: many laps around the ring with fresh keys and no empty values (the situations the ring-layout invariant
     # is about: a wrap with survivors in the tail, a value larger than half the buffer arriving after small ones,
     # an insertion ending exactly where the oldest entry begins, co-prime sizes drifting around the ring)
